@@ -137,6 +137,9 @@ func c01Check(c *sim.Ctx, w *world.World) {
 			continue
 		}
 		acc, aerr := accepted(fresh, t.Name)
+		if !acc && !isDefinitionRejection(aerr) {
+			c.Fail("schema-unreadable", "schema-read-error", fmt.Sprintf("Schema(%s) failed on a database SQLite just committed, and not because of the definition: %v", t.Name, aerr), map[string]interface{}{"table": t.Name})
+		}
 		if acc {
 			c.Inc("accepted_definitions", 1)
 		} else {
